@@ -1,7 +1,7 @@
 #!/bin/sh
 # usage: try_patch.sh <patch.diff> <Cxx> [Cyy ...]   (env TIER=quick|thorough)
 # Applies the patch to /repo's working tree, runs the named checks, reverts the tree again.
-patch=$1; shift
+patch=$(readlink -f "$1"); shift
 tier=${TIER:-quick}
 cd /repo || exit 2
 if ! git diff --quiet; then echo "/repo working tree is not clean"; exit 2; fi
